@@ -15,6 +15,7 @@ observation in `agent.observation_space` and of every generated in-space action 
 `agent.action_space` is checked on the real side (`in`); failures are runtime failures.
 """
 import itertools
+import random
 import json
 
 import numpy as np
@@ -71,6 +72,34 @@ class Session:
         self.ops, self.trace = [], []
         self.dead = False
         self.mem_fail = []          # (what, op index)
+        # a second wrapper in the same process over another simulation with the same agent ids, used in between:
+        # the first one must not notice (no communication state shared between wrapper objects)
+        self.shadow = None
+        if script.get("shadow") is not None:
+            self.srng = random.Random(script["shadow"])
+            self.shadow = CommunicationHandshakeWrapper(FusionStubSim({k: v for k, v in script.items() if k != "shadow"}))
+            self.shadow_started = False
+
+    def _shadow_op(self):
+        r, w2 = self.srng, self.shadow
+        try:
+            if not self.shadow_started or r.random() < 0.25:
+                w2.reset()
+                self.shadow_started = True
+            else:
+                ids = [i for i in range(self.n) if self.script["learning"][i]]
+                ad = {}
+                for a in ids:
+                    if r.random() < 0.85:
+                        others = [k for k in range(self.n) if k != a]
+                        ad[self.aid(a)] = {"action": 0,
+                                           "send": {self.aid(k): int(r.random() < 0.6) for k in others},
+                                           "receive": {self.aid(k): int(r.random() < 0.6) for k in others}}
+                w2.step(ad)
+        except mgr.Hang:
+            raise
+        except Exception:  # noqa: BLE001
+            pass
 
     def aid(self, i):
         return self.sim.ids[i] if 0 <= i < self.n else f"a{i}"
@@ -133,6 +162,8 @@ class Session:
 
     def apply(self, op):
         sim, w = self.sim, self.w
+        if self.shadow is not None:
+            self._shadow_op()
         lb, fb = len(sim.step_log), len(sim.fusion_log)
         if op[0] == "r":
             st, val = self._try(lambda: w.reset())
@@ -503,8 +534,12 @@ class CommProp(core.Prop):
             n = rng.choice([1, 2, 2, 3, 3, 3, 4, 4])
             learning = [rng.random() < 0.85 for _ in range(n)]
             script = plain_script(n, learning)
+            tags = ["random"]
+            if rng.random() < 0.25:
+                script["shadow"] = rng.randrange(10 ** 6)       # a second wrapper is used in between (see Session)
+                tags.append("second-wrapper-in-process")
             ops = random_history(rng, n, 10, rng.randint(1, 3))
-            yield self._direct(script, rng.randrange(3), ops, ["random"])
+            yield self._direct(script, rng.randrange(3), ops, tags)
         # --- out-of-domain stream ----------------------------------------------------------------------
         for i in range(150 if quick else 5000):
             n = rng.choice([1, 2, 3, 4])
